@@ -233,7 +233,34 @@ func hC20KMeans(minN, maxN, maxDim, maxIterBound, fixedK int) {
 // training an index twice on the same data gives search-identical indexes
 func H_C20_train_twice() {
 	vReplayAttempts = 40 // natively the two trainings meet the same map order by chance about every other time
-	kind := vChoose("kind", 4)
+	kind := vChoose("kind", 5)
+	if kind == 4 {
+		// a large training set (300 and 500 vectors per centroid — the upper end of the property's range): two runs of
+		// k-means on the same input are bit-identical; nothing drawn from a random source may reach the result
+		n := []int{300, 500}[vChoose("n", 2)]
+		vecs := make([][]float32, n)
+		for i := range vecs {
+			vecs[i] = []float32{float32((i*37)%101)/8 - 6, float32((i*53)%89)/4 - 11}
+		}
+		dist, _ := NewDistance(L2Squared)
+		k := 1 + vChoose("k", 2)
+		c1, a1 := KMeans(vecs, k, dist, 3)
+		vMapOrder(true)
+		c2, a2 := KMeans(vecs, k, dist, 3)
+		vMapOrder(false)
+		vAssert(len(c1) == k && len(c2) == k && len(a1) == n && len(a2) == n, "kmeans-shape")
+		for i := range c1 {
+			vAssert(vSameVec(c1[i], c2[i]), "kmeans-deterministic-centroids")
+		}
+		for i := range a1 {
+			vAssert(a1[i] == a2[i], "kmeans-deterministic-assignments")
+		}
+		for i := range vecs {
+			vAssert(vecs[i][0] == float32((i*37)%101)/8-6 && vecs[i][1] == float32((i*53)%89)/4-11, "kmeans-input-untouched")
+		}
+		vCover("ran")
+		return
+	}
 	data := [][]float32{{1, 0}, {0.5, 2}, {4, 4}, {4.5, 3}, {-2, 1}, {-2.5, 0.5}, {1, 1}, {3, -1}, {0, 0.25}, {5, 5}, {2.5, 2.5}, {-1, -1}}
 	if kind == 3 { // IVFPQ with two coarse clusters needs 20 training vectors
 		data = append(data, [][]float32{{6, 5.5}, {5.5, 6}, {-3, -0.5}, {-3.5, 1.5}, {0.25, -2}, {7, 4}, {-1.5, 2}, {3.5, 3.25}}...)
